@@ -18,4 +18,5 @@ static inline _Bool L0_GhostCmp__call(const struct GhostCmp *c, const E *a, cons
 static inline E *L0_lower_bound(const E *f, const E *l, const E *v, struct GhostCmp c) { return (E *)l0_bound(f, l, v, c.token, 0); }
 static inline E *L0_upper_bound(const E *f, const E *l, const E *v, struct GhostCmp c) { return (E *)l0_bound(f, l, v, c.token, 1); }
 #endif
+#include "l0_aset.h"
 #endif
